@@ -5,7 +5,7 @@ import os
 
 HERE = os.path.dirname(os.path.dirname(os.path.abspath(__file__)))
 BASELINE_OFF = ("cd /repo && /venv/bin/python -m pytest -ra -q -p no:cacheprovider --timeout=900 "
-                "--continue-on-collection-errors")
+                "--continue-on-collection-errors --junitxml=<file>")
 
 E1 = "E1 jaxpr2smt"
 E2 = "E2 pysym"
